@@ -21,7 +21,11 @@ RULE = ("angle triples: ALL multiples of 15 degrees (24^3), pitch = 90/270 +- {1
         "copy/freeze/thaw, results stored back into the pool; after EVERY step: the step's result vs the model applied to "
         "the operands' current values, every bystander bit-identical, setter/copy results exact, and Vec/tuple/Matrix @ Angle "
         "= ... @ Matrix.from_angle(Angle) and (v @ M) @ Angle = v @ (M @ from_angle(Angle)) through the live Angle objects. "
-        "products: random pairs of rotations and "
+        "DIRECTED histories: for every operand class pair (right operand a "
+        "rotation), operator form F and in-place mutator M of either operand the triples [F(x,y); M(y); F(x',y)], "
+        "[F(x,y); M(x); F(x,y')] and [F; copy/freeze/thaw; F] on the same live objects inside a short random history, run "
+        "both with and without identity probes between the steps; the probes also use the @= forms and visit the angles in "
+        "rotating order (last probed = first probed next round). products: random pairs of rotations and "
         "vectors of magnitude 1e-3..1e6 (matMul, vecRot). dispatch: EVERY (left type, right type, form) of the 7x7x3 table "
         "{Vec,FrozenVec,tuple,Angle,FrozenAngle,Matrix,FrozenMatrix}^2 x {@, @=, direct __rmatmul__} on several value sets "
         "each, plus same-object operands (m @= m, a @= a, fm @ fm): result type, value, result-is-left-operand, left/right "
@@ -676,8 +680,8 @@ def run_history(im, hist, on_step):
                 _, form, l, r, sel = op
                 lo = pool[l]
             else:
-                _, vals, r, sel = op
-                form, l, lo = 0, None, tuple(vals)
+                vals, r, sel = op[1], op[2], op[3]
+                form, l, lo = (op[4] if len(op) > 4 else 0), None, tuple(vals)
             ro = pool[r]
             rec.update(form=form, l=l, r=r, ltag=im.tag_of(lo), rtag=im.tag_of(ro), lval=im.model_val(lo), rval=im.model_val(ro),
                        lraw=im.raw(lo), alias=(lo is ro))
@@ -789,11 +793,25 @@ def history_property(ctx_witness, im, hist):
                 ctx_witness('result-is-operand', f'{where}: the result is the left operand itself', idx)
         elif 'want' in rec and rec['rtag'] >= ANG and rec['form'] != 2:
             ctx_witness('dispatch-rejected', f'{where} rejected: {rec["err"]}', idx)
-        # identities on the values current NOW, through the live objects themselves
+        if not hist.get('probes', True):
+            return      # quiet history: nothing but the listed operations ever touches the live objects
+        # identities on the values current NOW, through the live objects themselves. The order of the angles rotates so
+        # that the angle probed LAST in one round is probed FIRST in the next (after whatever the step did to it).
         probes = [sm.Vec(*PROBE_V), pool[0]]
-        for ai in (3, 4, 5):
+        order = [(3, 4, 5), (5, 3, 4), (4, 5, 3)][(idx + 1) % 3]
+        for ai in order:
             a = pool[ai]
             Ma = sm.Matrix.from_angle(a.pitch, a.yaw, a.roll)
+            # the in-place forms, on fresh left operands
+            vi = sm.Vec(*PROBE_V)
+            vi @= a
+            if maxdiff(im.raw(vi), im.raw(sm.Vec(*PROBE_V) @ Ma)) > 4 * tol_poly(sum(abs(Fr(x)) for x in PROBE_V)):
+                ctx_witness('vec-angle', f'after {where}: v = Vec{PROBE_V}; v @= {a!r} (slot {ai}) gives {im.raw(vi)} but '
+                                         f'Vec @ Matrix.from_angle(same angle) = {im.raw(sm.Vec(*PROBE_V) @ Ma)}', idx)
+            mi_ = sm.Matrix._from_raw(*mat_entries(pool[6]))
+            mi_ @= a
+            if maxdiff(mat_entries(mi_), mat_entries(sm.Matrix._from_raw(*mat_entries(pool[6])) @ Ma)) > 4 * tol_poly(1) * (1 + max(abs(x) for x in mat_entries(pool[6]))):
+                ctx_witness('mat-angle', f'after {where}: m @= {a!r} (slot {ai}) != m @ Matrix.from_angle(same angle)', idx)
             for v in probes:
                 n1 = sum(abs(Fr(t)) for t in im.raw(v))
                 if maxdiff(im.raw(v @ a), im.raw(v @ Ma)) > 4 * tol_poly(n1):
@@ -831,23 +849,85 @@ def prop_history(ctx, im, hist, shrink=True):
     small = hist
     if shrink:
         import common
+        pr = hist.get('probes', True)
+        mk = lambda ops: {'init': hist['init'], 'ops': list(ops), 'probes': pr}
         ops = hist['ops'][:idx + 1] if idx >= 0 else hist['ops']
-        if not any(f[0] == key for f in history_fails(im, {'init': hist['init'], 'ops': ops})):
+        if not any(f[0] == key for f in history_fails(im, mk(ops))):
             ops = hist['ops']
-        ops = common.ddmin(ops, lambda sub: any(f[0] == key for f in history_fails(im, {'init': hist['init'], 'ops': list(sub)})), budget=200)
-        if any(f[0] == key for f in history_fails(im, {'init': hist['init'], 'ops': []})):
+        ops = common.ddmin(ops, lambda sub: any(f[0] == key for f in history_fails(im, mk(sub))), budget=200)
+        if any(f[0] == key for f in history_fails(im, mk([]))):
             ops = []
-        small = {'init': hist['init'], 'ops': list(ops)}
+        small = mk(ops)
         again = [f for f in history_fails(im, small) if f[0] == key]
         if again:
             what = again[0][1]
-    ctx.witness(key, f'history over one pool of live objects ({len(small["ops"])} operation(s) after shrinking: {small["ops"]}): {what}',
-                {'kind': 'history', 'init': small['init'], 'ops': small['ops']})
+    ctx.witness(key, f'history over one pool of live objects ({len(small["ops"])} operation(s) after shrinking: {small["ops"]}; '
+                     f'{"with" if small.get("probes", True) else "NO"} identity probes between the steps): {what}',
+                {'kind': 'history', 'init': small['init'], 'ops': small['ops'], 'probes': small.get('probes', True)})
+
+
+def mutators_of(rng, i):
+    """Every in-place mutator of the object in slot i (none for the immutable classes)."""
+    k = POOL[i]
+    rs = lambda: rng.choice(ROT_SLOTS)
+    if k == ANG:
+        return [['ang-attr', i, rng.choice(['pitch', 'yaw', 'roll']), rng.uniform(-400, 800)],
+                ['ang-item', i, rng.choice([0, 1, 2, 'p', 'yaw', 'rol']), rng.uniform(-400, 800)],
+                ['ang-imul', i, rng.choice([2, 0.5, -1, 3.25])],
+                ['rot', 1, i, rs(), -1],
+                ['transform', i, rs()]]
+    if k == VEC:
+        return [['vec-attr', i, rng.choice('xyz'), rng.uniform(-1, 1) * 10 ** rng.uniform(-1, 4)],
+                ['rot', 1, i, rs(), -1],
+                ['transform', i, rs()]]
+    if k == MAT:
+        return [['mat-items', i, list(rand_angle(rng))], ['rot', 1, i, rs(), -1]]
+    return []
+
+
+def gen_directed_histories(ctx, rng):
+    """For every operand class pair of the dispatch table (right operand a rotation), every operator form F and every
+    in-place mutator M: [F(x,y); M(y); F(x',y)] and [F(x,y); M(x); F(x,y')], and [F; copy/freeze/thaw; F], on the SAME
+    live objects, embedded at a random position of a short random history; once with and once without the identity probes
+    between the steps (the probes themselves call the operators, which can refill or evict a cache)."""
+    def F(l, r, form, tupvals):
+        return ['tup', tupvals, r, -1, form] if l is None else ['rot', form, l, r, -1]
+    every = ctx.budget(2, 1)       # quick: every other template (alternating with the seed), thorough: all
+    n = 0
+    for ltag in range(7):
+        for rtag in (ANG, FANG, MAT, FMAT):
+            for form in range(3):
+                for li in ([None] if ltag == TUP else slots_of(ltag)[:1]):
+                    for ri in slots_of(rtag)[:1]:
+                        l2 = None if li is None else slots_of(ltag)[-1]        # another object of x's class (or x itself)
+                        r2 = slots_of(rtag)[-1]
+                        tv = list(rand_vec(rng))
+                        triples = []
+                        for m in mutators_of(rng, ri):
+                            triples.append([F(li, ri, form, tv), m, F(l2, ri, form, tv)])
+                        if li is not None:
+                            for m in mutators_of(rng, li):
+                                triples.append([F(li, ri, form, tv), m, F(li, r2, form, tv)])
+                        for k in ('copy', 'freeze', 'thaw'):
+                            who = rng.choice([ri] + ([li] if li is not None else []))
+                            triples.append([F(li, ri, form, tv), [k, who, rng.randrange(64)], F(li, ri, form, tv)])
+                        for t in triples:
+                            n += 1
+                            if (n + ctx.seed) % every:
+                                continue
+                            base = gen_history(rng, rng.randrange(0, 5))
+                            pos = rng.randrange(0, len(base['ops']) + 1)
+                            ops = base['ops'][:pos] + t + base['ops'][pos:]
+                            for probes in (False, True):
+                                yield {'init': base['init'], 'ops': [list(o) for o in ops], 'probes': probes}
 
 
 def gen_histories(ctx, rng):
     for _ in range(ctx.budget(400, 4000)):
-        yield gen_history(rng, rng.randrange(4, ctx.budget(16, 30)))
+        h = gen_history(rng, rng.randrange(4, ctx.budget(16, 30)))
+        h['probes'] = rng.random() < 0.7
+        yield h
+    yield from gen_directed_histories(ctx, rng)
 
 # ----------------------------------------------------------------------------- correspondence
 
@@ -1202,7 +1282,7 @@ def _replay_input(ctx, im, inp):
     elif k == 'composed':
         prop_composed_case(ctx, im, ('replay', [tuple(t) for t in inp['chain']], tuple(inp['v'])))
     elif k == 'history':
-        prop_history(ctx, im, {'init': inp['init'], 'ops': inp['ops']}, shrink=False)
+        prop_history(ctx, im, {'init': inp['init'], 'ops': inp['ops'], 'probes': inp.get('probes', True)}, shrink=False)
     else:
         return False
     return True
